@@ -489,9 +489,28 @@ def execute(arg):
     out = {"outcome": "ok", "violations": viol, "shape": digest(shape(plan))}
     model = {}      # file -> (step index of the acknowledged write)
     hist = {}       # file -> list of history tags since creation
+    import gc
+
+    # Finalizer timing is a schedule too: a writer that raised may leave an open handle with buffered bytes
+    # behind, which reaches the disk only when the garbage is collected.  The cyclic collector is switched off
+    # and the simulator decides when the leftovers of a failed write are released: at once, after the next
+    # step, or at the end of the run.
+    gc.collect()
+    gc.disable()
+    held = []       # [release_at_step, exception]
+
+    def release(now):
+        due = [h for h in held if h[0] <= now]
+        if due:
+            held[:] = [h for h in held if h[0] > now]
+            del due
+            gc.collect()
+            sim.count("finalizers_released")
+
     try:
         for i, st in enumerate(plan["steps"]):
             sim.count("steps")
+            release(i)
             path = fs.path(st["file"])
             if st["op"] == "write":
                 tags = hist.setdefault(st["file"], [])
@@ -504,6 +523,10 @@ def execute(arg):
                 except Exception as exc:
                     acked = False
                     sim.event("write-raised", st["file"], type(exc).__name__, str(exc).replace(root, "<fs>")[:100])
+                    when = sim.choose(3, "finalize-leftovers")
+                    held.append([i if when == 0 else (i + 2 if when == 1 else 10**9), exc])
+                    if when:
+                        sim.count("fault.late_finalizer")
                 finally:
                     fired = [k for k, _ in fs.fired]
                     fs.disarm()
@@ -572,7 +595,11 @@ def execute(arg):
                 else:
                     sim.count("roundtrips_ok")
                     sim.count("roundtrips_ok." + base)
+            if any(h[0] <= i for h in held):
+                release(i)
     finally:
+        held.clear()
+        gc.collect()
         fs.cleanup()
     out["stats"] = sim.stats
     out["tape_digest"] = digest(sim.tape)
